@@ -43,7 +43,33 @@ InstId string_to_inst_id(const char* s, size_t len) noexcept {
     return BaseInst::kIdNone;
   }
 
-  return InstNameUtils::find_instruction(s, len, InstDB::_inst_name_index_table, InstDB::_inst_name_string_table, InstDB::_inst_name_index);
+  // AArch64 instruction ids are not sorted by name - general purpose ids precede SIMD ids and some groups are ordered
+  // by their encoding - so a binary search cannot be used. The name index narrows the search to the span of ids that
+  // contains all names starting with the same letter and this span is scanned linearly.
+  uint32_t prefix = uint32_t(s[0]) - uint32_t('a');
+  if (ASMJIT_UNLIKELY(prefix > uint32_t('z') - uint32_t('a'))) {
+    return BaseInst::kIdNone;
+  }
+
+  size_t base = InstDB::_inst_name_index.data[prefix].start;
+  size_t end = InstDB::_inst_name_index.data[prefix].end;
+
+  if (ASMJIT_UNLIKELY(!base)) {
+    return BaseInst::kIdNone;
+  }
+
+  for (size_t inst_id = base; inst_id < end; inst_id++) {
+    StringTmp<32> name;
+    if (InstNameUtils::decode(InstDB::_inst_name_index_table[inst_id], InstStringifyOptions::kNone, InstDB::_inst_name_string_table, name) != Error::kOk) {
+      continue;
+    }
+
+    if (name.size() == len && memcmp(name.data(), s, len) == 0) {
+      return InstId(inst_id);
+    }
+  }
+
+  return BaseInst::kIdNone;
 }
 #endif // !ASMJIT_NO_TEXT
 
